@@ -36,7 +36,7 @@ LEVEL_NOTE = "Trusted: numpy comparisons and min/max; sklearn's check_random_sta
 TECHNIQUE = "runtime postcondition monitors (closed-box predicate, tight bounds, pad algebra, accept/reject equivalence of check_region) on every direct and nested call; seeded boundary-heavy workload"
 FLOORS = {
     "quick": {"eval:inside": 600, "eval:get_region": 350, "eval:pad_region": 380, "eval:scatter_points": 600, "eval:project_region": 60,
-              "eval:maxabs": 160, "eval:check_region": 2400, "eval:rejection": 900, "eval:grid_nodes_inside": 200, "distinct_nontrivial": 1300, "eval:arguments_unmodified": 5000, "class:get_region_wide_dtype": 40, "class:region_as_ndarray": 60},
+              "eval:maxabs": 160, "eval:check_region": 2400, "eval:rejection": 900, "eval:grid_nodes_inside": 200, "distinct_nontrivial": 1300, "eval:arguments_unmodified": 5000, "class:get_region_wide_dtype": 40, "class:region_as_ndarray": 60, "class:inside_nan_coordinates": 70, "class:projection_polar": 12},
     "thorough": {"eval:inside": 8000, "eval:get_region": 4500, "eval:check_region": 30000, "eval:rejection": 10000, "distinct_nontrivial": 15000},
 }
 JOBS = {"quick": 1, "thorough": 16}
@@ -329,7 +329,7 @@ def _shaped(rng, values):
     return ro
 
 
-def _projections(rng):
+def _projections(rng, region=None):
     a, b = rng.uniform(0.5, 3, 2) * rng.choice([-1, 1], 2)
     c, d = rng.normal(size=2) * 10
 
@@ -350,7 +350,30 @@ def _projections(rng):
         r = np.hypot(xm, ym) / max(np.hypot(np.ptp(x), np.ptp(y)), 1e-300)
         return xm * np.cos(3 * r) - ym * np.sin(3 * r), xm * np.sin(3 * r) + ym * np.cos(3 * r)
 
-    return [("affine", affine, True), ("shear", shear, False), ("cubic", cubic, True), ("fold", fold, False), ("swirl", swirl, False)]
+    out = [("affine", affine, True), ("shear", shear, False), ("cubic", cubic, True), ("fold", fold, False), ("swirl", swirl, False)]
+    if region is not None:
+        # pointwise maps that fold the region and couple both coordinates: an extreme of a projected coordinate is reached
+        # strictly inside the region, not on its border
+        w, e, s, n = region
+        cx, cy = w + rng.uniform(0.2, 0.8) * (e - w), s + rng.uniform(0.2, 0.8) * (n - s)
+        sx, sy = max(e - w, 1e-300), max(n - s, 1e-300)
+
+        def polar(x, y):
+            return np.hypot((x - cx) / sx, (y - cy) / sy), np.arctan2((y - cy) / sy, (x - cx) / sx)
+
+        def bowl(x, y):
+            return ((x - cx) / sx) ** 2 + ((y - cy) / sy) ** 2, y
+
+        def dome(x, y):
+            return x, 1.0 - ((x - cx) / sx) ** 2 - ((y - cy) / sy) ** 2
+
+        def orthographic(x, y):  # past the horizon: longitudes -100..100 mapped onto the region
+            lon = np.radians(-100 + 200 * (x - w) / sx)
+            lat = np.radians(-10 + 20 * (y - s) / sy)
+            return np.cos(lat) * np.sin(lon), np.sin(lat)
+
+        out += [("polar", polar, False), ("bowl", bowl, False), ("dome", dome, False), ("orthographic", orthographic, False)]
+    return out
 
 
 def run_case(run, tap, stream, index, rng):
@@ -379,6 +402,15 @@ def run_case(run, tap, stream, index, rng):
                         east[j] = val
                     else:
                         north[j] = val
+                if rng.random() < 0.35:  # undefined coordinates (survey gaps, points a projection cannot map): never inside
+                    for arr in (east, north):
+                        if rng.random() < 0.7:
+                            arr[rng.random(k) < rng.choice([0.2, 0.6, 1.0])] = np.nan
+                    if k >= 2 and rng.random() < 0.5:
+                        east[0], north[0] = np.nan, 0.5 * (s + n)
+                        east[1], north[1] = 0.5 * (w + e), np.nan
+                    if np.isnan(east).any() or np.isnan(north).any():
+                        run.count("class:inside_nan_coordinates")
                 perm = rng.permutation(k)
                 east, north = east[perm], north[perm]
                 if k == 1 and rng.random() < 0.5:
@@ -477,8 +509,9 @@ def run_case(run, tap, stream, index, rng):
                     run.mark_nontrivial("scatter", region, size, seed, extra)
             run.sample("scatter", {"region": region, "size": size, "seed": seed, "easting_head": first[0][:5]})
         elif stream == "project":
-            for name, proj, monotone in _projections(rng):
-                region = _region(rng, degenerate_ok=False)
+            region0 = _region(rng, degenerate_ok=False)
+            for name, proj, monotone in _projections(rng, region0):
+                region = region0 if name in ("polar", "bowl", "dome", "orthographic") else _region(rng, degenerate_ok=False)
                 res = vd.project_region(region, proj)
                 run.count("class:projection_" + name)
                 if monotone:
